@@ -348,9 +348,17 @@ def generate(repo):
         'true' if rn is None or re.fullmatch(
             r'\s*match self\.store\.get_element\(id\)\.await \{\s*Ok\(current\) => self\.authority\.may_read\(&current, self\.auth\)\.is_some\(\),\s*Err\(_\) => true,\s*\}\s*', rn)
         else 'false'))
-    out.append('Definition historical_reads_judge_present_row : bool := %s.\n' % (
-        'true' if rn is not None and re.search(r'Some\(past\) if self\.readable_now\(id\)\.await => Some\(past\)', ld)
-        and re.search(r'let present = self\.readable_now\(id\)\.await;', cd) else 'false'))
+    # both acquisition paths of a read bound to a past coordinate judge the present row, each on its own:
+    # load (by id, followed references, warm, export closure) and candidates (type scans)
+    load_judges = rn is not None and bool(re.search(
+        r'Some\(seq\) => match self\.store\.element_at\(&self\.space, id, seq\)\.await\? \{\s*Some\(past\) if self\.readable_now\(id\)\.await => Some\(past\),\s*_ => None,\s*\}', ld))
+    cand_judges = rn is not None and bool(re.search(
+        r'let present = self\.readable_now\(id\)\.await;\s*let admitted = self\.admit\(present\.then_some\(element\)\);', cd))
+    out.append('Definition load_judges_present_row : bool := %s.\n' % ('true' if load_judges else 'false'))
+    out.append('Definition candidates_judges_present_row : bool := %s.\n' % ('true' if cand_judges else 'false'))
+    # every historical row fetched in kql/mod.rs is fetched inside load or candidates (no third path)
+    hist = [(enclosing_fn(kqlmod, m.start()), m.group(1)) for m in re.finditer(r'\.\s*(element_at|elements_at)\s*\(', kqlmod)]
+    out.append('Definition historical_fetch_sites : list (string * string) := %s.\n' % clist('(%s, %s)' % (cs(a), cs(b)) for a, b in hist))
     i1 = ad.find('self.authority.may_read(&element, self.auth)?')
     i2 = ad.find('redact::apply(&mut view, &constraints, self.read_origin)')
     i3 = ad.find('self.views.insert(')
